@@ -178,6 +178,128 @@ pub fn wb<C: WBConfig>(t: &mut Tally, name: &str, rng: &mut Rng) {
     hash::<Projective<C>, WBMap<C>>(t, name, rng);
 }
 
+// ---- the kernel of the isogeny: RFC 9380 section 6.6.3 -- where a denominator of the rational map vanishes the image is the
+//      identity.  Kernel abscissae = roots of x_map_denominator in the base field (found by gcd with x^q - x and equal-degree
+//      splitting); each is pulled back through the simplified SWU map by solving its defining quadratics for u.
+type Poly<F> = Vec<F>;
+fn ptrim<F: Field>(mut a: Poly<F>) -> Poly<F> { while a.last().map_or(false, |c| c.is_zero()) { a.pop(); } a }
+fn prem<F: Field>(a: &Poly<F>, m: &Poly<F>) -> Poly<F> {
+    let mut r = ptrim(a.clone());
+    let dm = m.len() - 1;
+    let lead_inv = m[dm].inverse().unwrap();
+    while r.len() > dm {
+        let k = r.len() - 1 - dm;
+        let c = r[r.len() - 1] * lead_inv;
+        for i in 0..=dm { let v = m[i] * c; r[k + i] -= v; }
+        r = ptrim(r);
+    }
+    r
+}
+fn pmulmod<F: Field>(a: &Poly<F>, b: &Poly<F>, m: &Poly<F>) -> Poly<F> {
+    if a.is_empty() || b.is_empty() { return vec![]; }
+    let mut r = vec![F::zero(); a.len() + b.len() - 1];
+    for (i, x) in a.iter().enumerate() { for (j, y) in b.iter().enumerate() { r[i + j] += *x * y; } }
+    prem(&r, m)
+}
+fn ppowmod<F: Field>(base: &Poly<F>, e: &num_bigint::BigUint, m: &Poly<F>) -> Poly<F> {
+    let mut acc: Poly<F> = prem(&vec![F::one()], m);
+    for i in (0..e.bits()).rev() {
+        acc = pmulmod(&acc, &acc, m);
+        if e.bit(i) { acc = pmulmod(&acc, base, m); }
+    }
+    acc
+}
+fn pgcd<F: Field>(a: &Poly<F>, b: &Poly<F>) -> Poly<F> {
+    let (mut a, mut b) = (ptrim(a.clone()), ptrim(b.clone()));
+    while !b.is_empty() { let r = prem(&a, &b); a = b; b = r; }
+    a
+}
+fn pdiv_exact<F: Field>(a: &Poly<F>, b: &Poly<F>) -> Poly<F> {
+    let mut r = ptrim(a.clone());
+    let db = b.len() - 1;
+    let li = b[db].inverse().unwrap();
+    let mut q = vec![F::zero(); r.len().saturating_sub(db)];
+    while r.len() > db {
+        let k = r.len() - 1 - db;
+        let c = r[r.len() - 1] * li;
+        q[k] = c;
+        for i in 0..=db { let v = b[i] * c; r[k + i] -= v; }
+        r = ptrim(r);
+    }
+    q
+}
+/// all roots in F of a non-zero polynomial
+fn proots<F: Field>(f: &Poly<F>, rng: &mut Rng) -> Vec<F> {
+    let f = ptrim(f.clone());
+    if f.len() <= 1 { return vec![]; }
+    let q = crate::fields::field_order::<F>();
+    let x: Poly<F> = vec![F::zero(), F::one()];
+    let mut xq = ppowmod(&x, &q, &f);
+    while xq.len() < 2 { xq.push(F::zero()); }
+    xq[1] -= F::one();
+    let g = pgcd(&f, &ptrim(xq));           // product of the distinct linear factors
+    let mut out = vec![];
+    let mut stack = vec![g];
+    let half = (&q - 1u8) >> 1u32;
+    let mut r = rng.std();
+    while let Some(g) = stack.pop() {
+        let d = g.len().saturating_sub(1);
+        if d == 0 { continue; }
+        if d == 1 { out.push(-g[0] * g[1].inverse().unwrap()); continue; }
+        let a = F::rand(&mut r);
+        let mut h = ppowmod(&vec![a, F::one()], &half, &g);
+        if h.is_empty() { h.push(F::zero()); }
+        h[0] -= F::one();
+        let h = pgcd(&g, &ptrim(h));
+        let dh = h.len().saturating_sub(1);
+        if dh == 0 || dh == d { stack.push(g); continue; }
+        stack.push(pdiv_exact(&g, &h));
+        stack.push(h);
+    }
+    out
+}
+/// field elements u with x(SWU(u)) = x, from the two defining relations x1(t) = x and x2(t) = x with t = Z u^2
+fn swu_preimages<C: SWUConfig>(x: C::BaseField) -> Vec<C::BaseField> {
+    let (a, b, z) = (C::COEFF_A, C::COEFF_B, C::ZETA);
+    let one = C::BaseField::one();
+    let two_inv = (one + one).inverse().unwrap();
+    let mut ts = vec![];
+    let axb = a * x * b.inverse().unwrap();
+    // x1 = (-B/A)(1 + 1/(t^2 + t))  <=>  t^2 + t = 1 / (-(A x)/B - 1)
+    if let Some(c) = (-axb - one).inverse() {
+        if let Some(s) = (one + c + c + c + c).sqrt() { ts.push((-one + s) * two_inv); ts.push((-one - s) * two_inv); }
+    }
+    // x2 = t x1 = (-B/A)(t^2 + t + 1)/(t + 1)  <=>  t^2 + (1 + A x / B) t + (1 + A x / B) = 0
+    let k = one + axb;
+    if let Some(s) = (k.square() - (k + k + k + k)).sqrt() { ts.push((-k + s) * two_inv); ts.push((-k - s) * two_inv); }
+    let zi = z.inverse().unwrap();
+    let mut us = vec![];
+    for t in ts { if let Some(u) = (t * zi).sqrt() { us.push(u); us.push(-u); } }
+    us.into_iter().filter(|u| matches!(<SWUMap<C> as MapToCurve<Projective<C>>>::map_to_curve(*u), Ok(p) if p.x == x)).collect()
+}
+pub fn wb_kernel<C: WBConfig>(t: &mut Tally, name: &str, rng: &mut Rng) {
+    let m = &C::ISOGENY_MAP;
+    let mut xs = proots::<C::BaseField>(&m.x_map_denominator.to_vec(), rng);
+    xs.extend(proots::<C::BaseField>(&m.y_map_denominator.to_vec(), rng));
+    xs.sort_by_key(|x| format!("{x}")); xs.dedup();
+    let mut reached = 0;
+    for x in &xs {
+        for u in swu_preimages::<C::IsogenousCurve>(*x) {
+            reached += 1;
+            match t.no_panic(|| <WBMap<C> as MapToCurve<Projective<C>>>::map_to_curve(u), || format!("{name}: WB map_to_curve({u}) (SWU image in the isogeny kernel) panics")) {
+                Some(Ok(p)) => {
+                    t.check(sw_on::<C>(&p), || format!("{name}: WB map_to_curve({u}) = {p} is not on the target curve (SWU(u) lies in the kernel of the isogeny, x = {x})"));
+                    t.check(p.infinity, || format!("{name}: WB map_to_curve({u}) is not the identity although SWU(u) lies in the kernel of the isogeny (RFC 9380 6.6.3)"));
+                },
+                Some(Err(e)) => t.check(false, || format!("{name}: WB map_to_curve({u}) = Err({e}) on a kernel point")),
+                None => {},
+            }
+        }
+    }
+    t.cases += 1;
+    println!("NOTE {name}: {} rational kernel abscissae, {} preimages under SWU exercised", xs.len(), reached);
+}
+
 /// RFC 9380 section 6.7.1 (Elligator 2 on the Montgomery curve K t^2 = s^3 + J s^2 + s, J and K taken from the curve's
 /// Montgomery coefficients, not from the precomputed quotients) followed by the rational map of appendix D.1
 fn ell2_oracle<C: Elligator2Config>(u: C::BaseField) -> (C::BaseField, C::BaseField) {
@@ -273,5 +395,11 @@ pub fn all(t: &mut Tally, rng: &mut Rng) {
     guard(t, "curves/bls12_381 g2", rng, wb::<ark_bls12_381::g2::Config>);
     guard(t, "test-curves/bls12_381 g1", rng, wb::<ark_test_curves::bls12_381::g1::Config>);
     guard(t, "test-curves/bls12_381 g2", rng, wb::<ark_test_curves::bls12_381::g2::Config>);
+    guard(t, "curves/bls12_377 g1 [isogeny kernel]", rng, wb_kernel::<ark_bls12_377::g1::Config>);
+    guard(t, "curves/bls12_377 g2 [isogeny kernel]", rng, wb_kernel::<ark_bls12_377::g2::Config>);
+    guard(t, "curves/bls12_381 g1 [isogeny kernel]", rng, wb_kernel::<ark_bls12_381::g1::Config>);
+    guard(t, "curves/bls12_381 g2 [isogeny kernel]", rng, wb_kernel::<ark_bls12_381::g2::Config>);
+    guard(t, "test-curves/bls12_381 g1 [isogeny kernel]", rng, wb_kernel::<ark_test_curves::bls12_381::g1::Config>);
+    guard(t, "test-curves/bls12_381 g2 [isogeny kernel]", rng, wb_kernel::<ark_test_curves::bls12_381::g2::Config>);
     guard(t, "curves/ed_on_bls12_381_bandersnatch", rng, elligator::<ark_ed_on_bls12_381_bandersnatch::BandersnatchConfig>);
 }
